@@ -307,6 +307,7 @@ struct Totals {
     inert: u64,
     clock_reads: u64,
     pid_reads: u64,
+    mirror_mismatches: u64,
     same_signal_groups: u64,
     nontrivial_files: BTreeSet<String>,
     files: BTreeSet<String>,
@@ -340,6 +341,7 @@ fn accumulate(t: &mut Totals, r: &Value) {
     t.inert += r.get("inert").and_then(Value::as_u64).unwrap_or(0);
     t.clock_reads += r.get("clock_reads").and_then(Value::as_u64).unwrap_or(0);
     t.pid_reads += r.get("pid_reads").and_then(Value::as_u64).unwrap_or(0);
+    t.mirror_mismatches += r.get("mirror_mismatches").and_then(Value::as_u64).unwrap_or(0);
     if r.get("same_signal").and_then(Value::as_bool).unwrap_or(false) {
         t.same_signal_groups += 1;
     }
@@ -394,6 +396,7 @@ fn totals_json(t: &Totals) -> Value {
         "entropy_inert_launches": t.inert,
         "simulated_clock_reads_by_gram": t.clock_reads,
         "simulated_pid_reads_by_gram": t.pid_reads,
+        "run_mirror_vs_real_run_mismatches": t.mirror_mismatches,
         "groups_all_launches_same_signal": t.same_signal_groups,
         "distinct_files_compared": t.files.len(),
         "distinct_files_nontrivial": t.nontrivial_files.len(),
